@@ -29,7 +29,10 @@ DEL = dict(FULL, ops=["flag", "add_data", "pg_add", "pg_rm", "pg_del", "mk_group
            flags=("allow_delete",), dkinds=("fv",), classes=("Points",), caps={"groups": 3, "objects": 3, "data_per_object": 4, "entities": 16},
            copy_data=False)
 DELCORE = dict(DEL, ops=["flag", "pg_rm", "rm_ws", "rm_par", "copy", "reopen", "gc"], copy_targets=("same", "root2"))
-ALPHAS = {"FULL": FULL, "STRUCT": STRUCT, "EDIT": EDIT, "DEL": DEL, "DELCORE": DELCORE}
+# identifiers: creations with caller-supplied uids (in use / formerly used), copies, removals
+IDS = dict(FULL, ops=["mk_group", "mk_obj", "add_data", "pg_add", "copy", "rm_ws", "rm_par", "reopen", "gc"], uid_reuse=True,
+           dkinds=("fv",), classes=("Points",), pgs=("P",), caps={"groups": 3, "objects": 3, "data_per_object": 3, "entities": 14})
+ALPHAS = {"FULL": FULL, "STRUCT": STRUCT, "EDIT": EDIT, "DEL": DEL, "DELCORE": DELCORE, "IDS": IDS}
 
 DROP_ASC = {"uid_order": "asc", "policy": "drop"}
 HOLD_DESC = {"uid_order": "desc", "policy": "hold"}
